@@ -15,8 +15,9 @@ def stage_fold_groups(run, casefile, name="fold_groups"):
 def stage_judge_fold(run, resfile, name="judge_fold"):
     for line in first_lines(resfile, 900)[-1:]:
         c = json.loads(line)
+        other = c["runs"][1] if len(c["runs"]) > 1 else c["runs"][0]
         run.add_sample({"kind": "Render with tracing functions", "q": c["q"], "calls_all_traced": c["runs"][0]["calls"][:10],
-                        "out": c["runs"][0]["out"], "one_removed": {"op": c["runs"][1]["mop"], "outcome": c["runs"][1]["outcome"], "out": c["runs"][1]["out"]}})
+                        "out": c["runs"][0]["out"], "one_removed": {"op": other["mop"], "outcome": other["outcome"], "out": other["out"]}})
     j, vfiles, d = run.judge(name, "JudgeFold", "C15", resfile, unit=1500)
     run.traces += j["judged"]
     run.distinct += j["judged"]
